@@ -24,6 +24,32 @@ def runNodesP (m : Matrix) (ws : List Nat) : St → List T → St × Option Err
 def parsimonyP (m : Matrix) (weights : Option (List Nat)) (attrs : Attrs) (t : T) : St × Option Err :=
   runNodesP m (weightsOf m weights) { attrs := attrs, score := 0, bychar := List.replicate (nchar m) 0 } (post t)
 
+/-! ### `fitch_down_pass(…, taxon_state_sets_map=None)`: "the leaves must already carry their state sets" -/
+
+/-- body of the node loop when no map is given: a leaf only READS its attribute (`ss = get_node_state_sets(nd)`; without the
+    attribute the fallback `taxon_state_sets_map[n.taxon]` on `None` raises TypeError); internal nodes never consult the map -/
+def stepNodeN (ws : List Nat) (st : St) (nd : T) : Except Err St :=
+  match nd.cs with
+  | [] =>
+    match getAttr st.attrs nd.id with
+    | none => .error .typeError
+    | some _ => .ok st
+  | _ :: _ => stepNode [] ws st nd
+
+def runNodesNP (ws : List Nat) : St → List T → St × Option Err
+  | st, [] => (st, none)
+  | st, nd :: rest =>
+    match stepNodeN ws st nd with
+    | .error e => (st, some e)
+    | .ok st' => runNodesNP ws st' rest
+
+/-- enough unit weights for every stored row (`wt = 1` for every character when `weights is None`) -/
+def onesFor (attrs : Attrs) : List Nat := List.replicate (attrs.foldl (fun n e => max n e.2.length) 0) 1
+
+/-- `fitch_down_pass(tree.postorder_node_iter(), taxon_state_sets_map=None, weights=…)` (no per-character list: it needs the map) -/
+def parsimonyNP (weights : Option (List Nat)) (attrs : Attrs) (t : T) : St × Option Err :=
+  runNodesNP (match weights with | some w => w | none => onesFor attrs) { attrs := attrs, score := 0, bychar := [] } (post t)
+
 /-! ### `fitch_up_pass` -/
 
 /-- one character of one node in the final phase: parent's final set `p`, the node's down-pass set `c`, the children's
@@ -121,6 +147,8 @@ inductive XOp where
   | defMap (k : Nat) (src : Src)                       -- create map object `k` (next free index) or replace it
   | score (obj : Nat) (src : Src) (store : Option Nat) (weights : Option (List Nat))
   | up (obj : Nat) (store : Nat) (map : Option Nat)
+  | scoreNoMap (obj : Nat) (store : Option Nat) (weights : Option (List Nat))   -- `fitch_down_pass(…, taxon_state_sets_map=None)`
+  | scoreForeign (obj : Nat) (k : Nat)     -- `parsimony_score(tree, chars)` with a matrix object of ANOTHER taxon namespace
   | dump (obj : Nat) (store : Nat)
 
 inductive XRes where
@@ -209,6 +237,26 @@ def stepX (s : XState) : XOp → XState × XRes
           match (upPass mo (getStore o.stores name) o.tree).2 with
           | none => .upOk
           | some e => .err e)
+  | .scoreNoMap j store w =>
+    match s.objs[j]? with
+    | none => (s, .badObj)
+    | some o =>
+      match store with
+      | none =>
+        (s, match parsimonyNP w [] o.tree with
+            | (st, none) => .ok st.score []
+            | (_, some e) => .err e)
+      | some name =>
+        ({ s with objs := s.objs.set j { o with stores := (name, (parsimonyNP w (getStore o.stores name) o.tree).1.attrs) :: o.stores } },
+          match parsimonyNP w (getStore o.stores name) o.tree with
+          | (st, none) => .ok st.score []
+          | (_, some e) => .err e)
+  | .scoreForeign j k =>
+    -- the identity test comes first: nothing is read, nothing is written
+    match s.objs[j]?, s.mats[k]? with
+    | some _, some _ => (s, .err .nsError)
+    | none, _ => (s, .badObj)
+    | _, none => (s, .badMat)
   | .dump j name =>
     match s.objs[j]? with
     | none => (s, .badObj)
